@@ -68,20 +68,17 @@ theorem C01_pe_same_observations (net : PE.Net K) (np : Ls.Net.NetProblem K) (u 
 theorem C01_pe_rowsOK (net : PE.Net K) (np : Ls.Net.NetProblem K) (u : Unknowns K)
     (h : projectEquations net = .ok (np, u)) (hna : ∀ ob ∈ revisedObs u.net, NoAlias ob) :
     Ls.RowsOK (Ls.Net.toProblem np) := by
+  -- round 11: `RowsOK` is the range condition only; `hna` is no longer used (kept for the callers)
   obtain ⟨_, _, _, hr⟩ := C01_pe_rows_in_range net np u h
-  obtain ⟨net', a, F⟩ := pe_final net np u h
-  obtain ⟨b, Fr⟩ := assemble_fresh net' a F.asm
-  have hna' : ∀ ob ∈ revisedObs net', NoAlias ob := by
-    intro ob hob; apply hna; rw [F.u_net]; exact hob
-  intro i hi
-  refine ⟨?_, hr i hi⟩
-  show ((np.rows.getD i #[]).toList.map (·.1)).Nodup
-  have hi' : i < b.rows.length := by
-    have : np.m = a.np.m := by rw [F.np_eq]
-    rw [Fr.ok.nrows, ← Fr.m, ← this]; exact hi
-  have : (np.rows.getD i #[]).toList = b.rows[i] := by rw [F.np_eq]; simp only []; rw [Fr.rows]; simp [hi']
-  rw [this]
-  exact Fr.ok.nodup hna' _ (List.getElem_mem hi')
+  exact fun i hi => hr i hi
+
+/-- **`RowsOK` WITHOUT `NoAlias`** (round 11): since `RowsOK` is the range condition only (repeated column indices add up
+    in every consumer of a sparse row), the output of `project_equations()` satisfies it for EVERY network — an observation
+    that names one point in two roles included -/
+theorem C01_pe_rowsOK_aliased (net : PE.Net K) (np : Ls.Net.NetProblem K) (u : Unknowns K)
+    (h : projectEquations net = .ok (np, u)) : Ls.RowsOK (Ls.Net.toProblem np) := by
+  obtain ⟨_, _, _, hr⟩ := C01_pe_rows_in_range net np u h
+  exact fun i hi => hr i hi
 
 /-- **clusters partition the rows** (`hdim` of the `C01_net_*` theorems, instance-free form): the numbers
     `activeObs()` of the clusters that have active observations add up to `pocmer_` -/
